@@ -61,6 +61,11 @@ def items(tier):
     # products grown step by step (register a component, hang its parts under it, register the parts when their turn comes)
     for sp in F.three_level_product_specs() + F.nested_running_specs() + F.nested_order_specs():
         out.append((dict(sp, product_wire="register-and-link"), {"rule": "TSLACK", "max_time": F.seq_bound(sp) + 8}))
+    # runs stopped at step k, looked at through every read-only helper (chart data, queries, printing), and continued
+    for sp, o in list(out)[:: (9 if tier == "quick" else 3)]:
+        if not (o.get("post_insert") or o.get("backward") or o.get("reload")):
+            for k in (1, 2, 3):
+                out.append((sp, dict(o, resume_from=k, pause_queries=True)))
     # the same invariants on a run that follows an earlier run on the same project object
     for sp, o in list(out)[:: (7 if tier == "quick" else 2)]:
         out.append((sp, dict(o, presim=1)))
